@@ -233,3 +233,71 @@ theorem path_length_le {L : Levels} {a b : Bytes} {q : List Bytes}
   exact List.Nodup.length_le_of_subset hq.2.2.2 hqV
 
 end Scrapli.Priv
+
+/-! ## the explicit tree path -/
+namespace Scrapli.Priv
+open Scrapli Scrapli.Forest
+
+theorem rootDist_lt (L : Levels) : ∀ (f : Nat) (a : Bytes) (k : Nat), rootDist L f a = some k → k < f := by
+  intro f
+  induction f with
+  | zero => intro a k h; simp [rootDist] at h
+  | succ f ih =>
+    intro a k h
+    rw [rootDist] at h
+    split at h
+    · cases h
+    · rename_i l hl
+      split at h
+      · cases h; omega
+      · cases hr : rootDist L f l.previous with
+        | none => rw [hr] at h; cases h
+        | some j =>
+          rw [hr] at h
+          simp at h
+          have := ih _ _ hr
+          omega
+
+theorem depthOf_le (L : Levels) (a : Bytes) : depthOf L a ≤ L.length := by
+  unfold depthOf
+  cases h : rootDist L L.length a with
+  | none => simp
+  | some k => have := rootDist_lt L _ _ _ h; simp; omega
+
+/-- for levels that pass the decidable tree check, `treePath` (up to the lowest common ancestor,
+then down) is the simple path between two levels -/
+theorem treePath_simple {L : Levels} (h : isTree L = true) {a b : Bytes} (ha : a ∈ names L)
+    (hb : b ∈ names L) :
+    SimplePath (par L) a b (treePath L a b) ∧ ∀ v ∈ treePath L a b, v ∈ names L := by
+  have ht := tree_of_isTree h
+  have h' := h
+  unfold isTree at h'
+  simp only [Bool.and_eq_true, List.all_eq_true] at h'
+  have hall := h'.2
+  have hd : ∀ x p, par L x = some p → depthOf L x = depthOf L p + 1 :=
+    fun x p hp => (rootDist_par hall hp).2
+  have h0 : ∀ x, x ∈ names L → par L x = none → depthOf L x = 0 := by
+    intro x hx hp
+    obtain ⟨l, hl⟩ := find?_isSome_of_mem hx
+    have hprev : l.previous = [] := by
+      unfold par at hp; rw [hl] at hp
+      by_cases hq : l.previous = []
+      · exact hq
+      · simp [hq] at hp
+    unfold depthOf
+    cases hn : L.length with
+    | zero => simp [rootDist]
+    | succ f => rw [rootDist, hl]; simp [hprev]
+  have hc := climb_simple (V := fun v => v ∈ names L) hd h0 (fun x p _ hp => ht.closed x p hp) ht.root
+    (2 * L.length) a b ha hb (by have := depthOf_le L a; have := depthOf_le L b; omega)
+  refine ⟨hc.1, fun v hv => ?_⟩
+  have anc_mem : ∀ {x y : Bytes}, Anc (par L) x y → y ∈ names L → x ∈ names L := by
+    intro x y hxy
+    induction hxy with
+    | refl => exact id
+    | step hp _ ih => intro _; exact ih (ht.closed _ _ hp)
+  rcases hc.2 v hv with hva | hvb
+  · exact anc_mem hva ha
+  · exact anc_mem hvb hb
+
+end Scrapli.Priv
